@@ -41,6 +41,14 @@ def mk_dps(rng, n_dp):
         dp = navis.make_dotprops(pts, k=min(k, max(1, len(pts))))
         dp.id = 100 + j
         dp.units = '1 micron' if rng.random() < 0.7 else None
+        if rng.random() < 0.2 and len(pts) > 1:
+            # the usual workflow: data in nm, kd-tree already built (any earlier query), then converted in place
+            dp = navis.make_dotprops((pts.astype(np.float64) * 1000), k=min(k, max(1, len(pts))))
+            dp.id = 100 + j
+            dp.units = '1 nm'
+            _ = dp.kdtree
+            dp /= 1000
+            dp.units = '1 micron'
         out.append(dp)
     return out
 
@@ -164,6 +172,31 @@ def run(ctx):
             smat_arg, tab, sm_term = fn_, None, None
         kw = dict(scores=scores, normalized=normalized, use_alpha=use_alpha, smat=smat_arg, limit_dist=limit, n_cores=1, progress=False)
         nl = navis.NeuronList(dps)
+        variant = str(rng.choice(['same-list', 'same-list', 'shifted-ids', 'smart', 'smart'])) if not allbyall and sm_term is not None and scores != 'both' else 'same-list'
+        params['variant'] = variant
+        if variant == 'shifted-ids' and len(dps) >= 2:
+            # query = all but the last, target = all but the first, and the target ids are those of the QUERY list: id collisions
+            # between different neurons (ids only have to be unique within a list)
+            qd, td = dps[:-1], [d.copy() for d in dps[1:]]
+            for d_, q_ in zip(td, qd):
+                d_.id = q_.id
+            st, m = guarded(navis.nblast, navis.NeuronList(qd), navis.NeuronList(td), **kw)
+            if st == 'ok':
+                st2, ref = guarded(navis.nblast, navis.NeuronList(qd), navis.NeuronList(dps[1:]), **kw)
+                ctx.count('variant:colliding-ids')
+                if st2 == 'ok' and not np.allclose(np.asarray(m.values, dtype=float), np.asarray(ref.values, dtype=float), rtol=1e-9, atol=1e-12, equal_nan=True):
+                    ctx.violation('NBLAST scores depend on the neurons\' ids (query and target lists with colliding ids)', dict(params=params, ids=[d.id for d in qd]),
+                                  dict(with_colliding_ids=np.asarray(m.values).tolist(), with_distinct_ids=np.asarray(ref.values).tolist()))
+            continue
+        if variant == 'smart':
+            # nblast_smart with a score threshold below every possible score re-runs every pair in full: must equal nblast
+            st, m = guarded(navis.nblast_smart, nl, nl, t=-1e9, criterion='score', scores=scores, normalized=normalized, use_alpha=use_alpha,
+                            smat=smat_arg, limit_dist=limit, n_cores=1, progress=False)
+            st2, ref = guarded(navis.nblast, nl, nl, **kw)
+            ctx.count('variant:smart')
+            if st == 'ok' and st2 == 'ok' and not np.allclose(np.asarray(m.values, dtype=float), np.asarray(ref.values, dtype=float), rtol=1e-6, atol=1e-9, equal_nan=True):
+                ctx.violation('nblast_smart with every pair re-scored differs from nblast', dict(params=params), dict(smart=np.asarray(m.values).tolist(), nblast=np.asarray(ref.values).tolist()))
+            continue
         if allbyall:
             st, m = guarded(navis.nblast_allbyall, nl, **{k: v for k, v in kw.items() if k != 'scores'})
             params['scores'] = scores = 'forward'
